@@ -51,10 +51,22 @@ OPS = {
     'cp2s': ('codepoints-to-string($a0)', 'L', V2, False, SITE2 + ' evaluate__codepoints_to_string'),
     'upper': ('upper-case($a0)', 'S', V2, False, SITE2 + ' evaluate__upper_case'),
     'lower': ('lower-case($a0)', 'S', V2, False, SITE2 + ' evaluate__lower_case'),
+    'hbefore': ("substring-before($a0,$a1,'%s')" % 'HTML', 'SS', V2, False, 'elementpath/collations.py CollationManager.find'),
+    'hafter': ("substring-after($a0,$a1,'%s')" % 'HTML', 'SS', V2, False, 'elementpath/collations.py CollationManager.find'),
+    'hcontains': ("contains($a0,$a1,'%s')" % 'HTML', 'SS', V2, False, 'elementpath/collations.py CollationManager.contains'),
+    'hstarts': ("starts-with($a0,$a1,'%s')" % 'HTML', 'SS', V2, False, 'elementpath/collations.py CollationManager.startswith'),
+    'hends': ("ends-with($a0,$a1,'%s')" % 'HTML', 'SS', V2, False, 'elementpath/collations.py CollationManager.endswith'),
+    'hcompare': ("compare($a0,$a1,'%s')" % 'HTML', 'SS', V2, False, 'elementpath/collations.py html_ascii_strcoll'),
     'encode': ('encode-for-uri($a0)', 'S', V2, False, SITE2 + ' evaluate__encode_for_uri'),
     'iri': ('iri-to-uri($a0)', 'S', V2, False, SITE2 + ' evaluate__iri_to_uri'),
     'html': ('escape-html-uri($a0)', 'S', V2, False, SITE2 + ' evaluate__escape_html_uri'),
 }
+
+HTML_URI = 'http://www.w3.org/2005/xpath-functions/collation/html-ascii-case-insensitive'
+CP_URI = 'http://www.w3.org/2005/xpath-functions/collation/codepoint'
+for _k, _v in list(OPS.items()):
+    if _v[0] and "'HTML'" in _v[0]:
+        OPS[_k] = (_v[0].replace('HTML', HTML_URI),) + _v[1:]
 
 _env = {}
 
@@ -208,6 +220,8 @@ def variants(case, pidx: int):
         out.append((' || '.join(f'$a{i}' for i in range(len(args[0]))), var, 'operator-||'))
     if op == 'join' and pidx >= 2 and args[0] == []:
         out.append(('string-join($a1)', var, 'string-join/1'))
+    if op in ('before', 'after', 'contains', 'starts', 'ends', 'compare') and pidx >= 1:
+        out.append((e[:-1] + f",'{CP_URI}')", var, 'collation-argument'))
     if op in ('substring2', 'substring3'):
         lits = []
         for n in args[1:]:
@@ -284,6 +298,7 @@ EDGES = [0xD7FF, 0xE000, 0xFFFD, 0xFFFE, 0xFFFF, 0x7F, 0x80, 0x7FF, 0x800, 1, 8]
 NONXML = [0, 0xD800, 0xDFFF, 0xDBFF]
 CASEY = [0xDF, 0x3A3, 0x3C3, 0x3C2, 0x130, 0x1C5, 0x149, 0xE9, 0xC9, 0x1E9E, 0xFB01, 0x345, 0x2B0, 0x27, 0xAD,
          0x10400, 0x3B1, 0x391]
+HTMLY = [65, 97, 66, 98, 90, 122, 64, 91, 96, 123, 0xDF, 115, 83, 0xE9, 0xC9, 0x17F, 0x212A, 75, 107, 0x130, 0x131, 105, 73]
 URIish = [0x25, 0x7E, 0x2F, 0x3C, 0x3E, 0x22, 0x7B, 0x7D, 0x7C, 0x5C, 0x5E, 0x60, 0x23, 0x5B, 0x5D, 0x2D, 0x5F, 0x2E,
           0x21, 0x2A, 0x28, 0x3F, 0x40, 0x26, 0x3D, 0x2B, 0x24, 0x2C, 0x3B, 0x3A]
 
@@ -296,6 +311,8 @@ def gen_alpha(rng, op):
         pools += [URIish, URIish, URIish]
     if op == 'normalize':
         pools += [WS, WS, WS_OTHER]
+    if op.startswith('h') and op != 'html':
+        pools = [HTMLY, HTMLY, HTMLY, ASCII, ASTRAL]
     if rng.random() < 0.08:
         pools = pools + [NONXML]
     k = rng.choice([1, 2, 2, 3, 3, 4, 6])
@@ -355,7 +372,8 @@ def gen_num(rng, n, wide=True):
 
 WEIGHTS = {'substring2': 10, 'substring3': 16, 'before': 6, 'after': 6, 'contains': 5, 'starts': 4, 'ends': 4,
            'translate': 10, 'normalize': 8, 'length': 2, 'concat': 3, 'join': 3, 'compare': 5, 'cpequal': 3,
-           's2cp': 2, 'cp2s': 4, 'upper': 4, 'lower': 5, 'encode': 3, 'iri': 3, 'html': 3}
+           's2cp': 2, 'cp2s': 4, 'upper': 4, 'lower': 5, 'encode': 3, 'iri': 3, 'html': 3,
+           'hbefore': 3, 'hafter': 3, 'hcontains': 2, 'hstarts': 2, 'hends': 2, 'hcompare': 4}
 
 
 def gen_case(rng, ops=None):
@@ -369,10 +387,17 @@ def gen_case(rng, ops=None):
         args = [s, gen_num(rng, len(s)), gen_num(rng, len(s))]
     elif op in ('before', 'after', 'contains', 'starts', 'ends'):
         args = [s, gen_sub(rng, s, alpha)]
-    elif op in ('compare', 'cpequal'):
+    elif op in ('hbefore', 'hafter', 'hcontains', 'hstarts', 'hends'):
+        t = gen_sub(rng, s, alpha)
+        if rng.random() < 0.6:       # same factor in another case
+            t = [ord(chr(c).swapcase()) if len(chr(c).swapcase()) == 1 and rng.random() < 0.7 else c for c in t]
+        args = [s, t]
+    elif op in ('compare', 'cpequal', 'hcompare'):
         t = gen_sub(rng, s, alpha) if rng.random() < 0.3 else list(s)
         if rng.random() < 0.6:
             t = t + gen_str(rng, alpha, 3) if rng.random() < 0.5 else t[:rng.randrange(len(t) + 1)] + gen_str(rng, alpha, 2)
+        if op == 'hcompare' and rng.random() < 0.6:
+            t = [ord(chr(c).swapcase()) if len(chr(c).swapcase()) == 1 and rng.random() < 0.5 else c for c in t]
         args = [s, t]
     elif op == 'translate':
         m = gen_str(rng, alpha + [rng.choice(ASCII)], 5)
@@ -445,6 +470,16 @@ CORPUS = [
     {'op': 'ends', 'args': [S('tattoo'), S('too')]},
     {'op': 'compare', 'args': [S('a'), S('\U0001F600')]},
     {'op': 'compare', 'args': [S('￿'), S('\U00010000')]},
+    # F09f: the HTML ASCII case-insensitive collation folds A-Z only
+    {'op': 'hcompare', 'args': [S('ß'), S('ss')]},
+    {'op': 'hcompare', 'args': [S('é'), S('É')]},
+    {'op': 'hcompare', 'args': [S('a'), S('A')]},
+    {'op': 'hbefore', 'args': [S('ßxy'), S('Y')]},
+    {'op': 'hafter', 'args': [S('ßxy'), S('X')]},
+    {'op': 'hcontains', 'args': [S('Straße'), S('SS')]},
+    {'op': 'hcontains', 'args': [S('K'), S('k')]},
+    {'op': 'hends', 'args': [S('abC'), S('c')]},
+    {'op': 'hstarts', 'args': [S('é'), S('É')]},
     {'op': 'cp2s', 'args': [[65, 0]]},
     {'op': 'cp2s', 'args': [[0x2309, 0x1F600, 0xFFFD]]},
     {'op': 'cp2s', 'args': [[0xFFFE]]},
@@ -579,6 +614,11 @@ def search(run: Run):
         for t in tiny:
             for op in ('before', 'after', 'contains', 'starts', 'ends', 'compare', 'cpequal'):
                 cases.append({'op': op, 'args': [s, t]})
+    hs = [list(p) for k in range(4) for p in product([97, 65, 0xDF], repeat=k)]
+    for s in hs:
+        for t in [x for x in hs if len(x) <= 2]:
+            for op in ('hbefore', 'hafter', 'hcontains', 'hstarts', 'hends', 'hcompare'):
+                cases.append({'op': op, 'args': [s, t]})
     ab = [list(p) for k in range(4) for p in product([97, 98], repeat=k)]
     for m in ab:
         for t in [list(p) for k in range(3) for p in product([120, 121], repeat=k)]:
@@ -611,7 +651,11 @@ def shrink(d: Disagreement) -> Disagreement:
     if not isinstance(d.case, dict) or 'op' not in d.case:
         return d
     best = d
-    for _ in range(12):
+    import time
+    t0 = time.time()
+    for _ in range(40):
+        if time.time() - t0 > 60:
+            break
         case = {'op': best.case['op'], 'args': best.case['args']}
         kinds = OPS[case['op']][1]
         cands = []
@@ -619,6 +663,10 @@ def shrink(d: Disagreement) -> Disagreement:
             if a is None:
                 cands.append({'op': case['op'], 'args': case['args'][:i] + [[]] + case['args'][i + 1:]})
             elif k in ('S', 'L'):
+                n = len(a)
+                for size in sorted({n // 2, n // 4} - {0, 1}, reverse=True):    # chunks first
+                    for j in range(0, n, size):
+                        cands.append({'op': case['op'], 'args': case['args'][:i] + [a[:j] + a[j + size:]] + case['args'][i + 1:]})
                 for j in range(len(a)):
                     cands.append({'op': case['op'], 'args': case['args'][:i] + [a[:j] + a[j + 1:]] + case['args'][i + 1:]})
                 for j, c in enumerate(a):
